@@ -448,3 +448,15 @@ class MeshScriptsBounded(BoundedUnit):
         for which in (0, 1):
             for tf in (None, "mirror", "affine"):
                 yield f"mesh_file_to_precomputed mesh{which} transform={tf}", m2p_case(which, tf)
+
+
+# ---- native replay adapters (scenario sweeps on the real code, contracts/_native.py)
+
+from . import _native  # noqa: E402
+
+
+def _use(fn):
+    return lambda self, model, cfg, ob_name: fn()
+
+
+AffineTransformMesh.replay = _use(_native.affine_mesh_sweep)
